@@ -45,7 +45,7 @@ package varmq
 // Add: a rejected submission has no effect (the job is closed, nothing counted, no signal); an accepted one is enqueued exactly once,
 // counted once, marked queued, and the dispatcher is signalled -- in that order.
 //@ func queue.Add
-//@   props C01 C03 C10 C17
+//@   props C01 C03 C10 C17 C16
 //@   assert [signal-after-bookkeeping] before call invoke.notifyToPullNextJobs: j.status == queued
 //@   requires q.externalBaseQueue != nil && q.externalBaseQueue.w != nil && q.internalQueue != nil
 //@   requires forall k int :: 0 <= k && k < len(configs) ==> configs[k] != nil
@@ -60,7 +60,7 @@ package varmq
 
 // AddAll: every item is either enqueued once (counted, signalled) or rejected and closed; the handle's counter is the number accepted.
 //@ func queue.AddAll
-//@   props C01 C05 C08 C17
+//@   props C01 C05 C08 C17 C16
 //@   assert [signal-after-bookkeeping] before call invoke.notifyToPullNextJobs: j.job.status == queued
 //@   requires q.externalBaseQueue != nil && q.externalBaseQueue.w != nil && q.internalQueue != nil && len(items) <= MaxUint32
 //@   modifies $usercalls, $alloc, $wgdone[0], $lenOf(q.internalQueue), $enq(q.internalQueue), $lastEnq(q.internalQueue), $submitted, $signals(q.externalBaseQueue.w), $acks, $lastAck
@@ -85,7 +85,7 @@ package varmq
 //@   ensures [wired] $fresh(result) && result.internalQueue == q && result.externalBaseQueue != nil && result.externalBaseQueue.q == q && result.externalBaseQueue.w == $mk(w)
 
 //@ func errorQueue.Add
-//@   props C01 C03 C10 C17
+//@   props C01 C03 C10 C17 C16
 //@   assert [signal-after-bookkeeping] before call invoke.notifyToPullNextJobs: j.job.status == queued
 //@   requires q.externalBaseQueue != nil && q.externalBaseQueue.w != nil && q.internalQueue != nil
 //@   requires forall k int :: 0 <= k && k < len(configs) ==> configs[k] != nil
@@ -99,7 +99,7 @@ package varmq
 //@   ensures [fresh]    $fresh(j)
 
 //@ func errorQueue.AddAll
-//@   props C01 C05 C08 C17
+//@   props C01 C05 C08 C17 C16
 //@   assert [signal-after-bookkeeping] before call invoke.notifyToPullNextJobs: j.errorJob.job.status == queued
 //@   requires q.externalBaseQueue != nil && q.externalBaseQueue.w != nil && q.internalQueue != nil && len(items) <= MaxUint32
 //@   modifies $usercalls, $alloc, $wgdone[0], $lenOf(q.internalQueue), $enq(q.internalQueue), $lastEnq(q.internalQueue), $submitted, $signals(q.externalBaseQueue.w), $acks, $lastAck
@@ -124,7 +124,7 @@ package varmq
 //@   ensures [wired] $fresh(result) && result.internalQueue == q && result.externalBaseQueue != nil && result.externalBaseQueue.q == q && result.externalBaseQueue.w == $mk(w)
 
 //@ func resultQueue.Add
-//@   props C01 C03 C10 C17
+//@   props C01 C03 C10 C17 C16
 //@   assert [signal-after-bookkeeping] before call invoke.notifyToPullNextJobs: j.job.status == queued
 //@   requires q.externalBaseQueue != nil && q.externalBaseQueue.w != nil && q.internalQueue != nil
 //@   requires forall k int :: 0 <= k && k < len(configs) ==> configs[k] != nil
@@ -138,7 +138,7 @@ package varmq
 //@   ensures [fresh]    $fresh(j)
 
 //@ func resultQueue.AddAll
-//@   props C01 C05 C08 C17
+//@   props C01 C05 C08 C17 C16
 //@   assert [signal-after-bookkeeping] before call invoke.notifyToPullNextJobs: j.resultJob.job.status == queued
 //@   requires q.externalBaseQueue != nil && q.externalBaseQueue.w != nil && q.internalQueue != nil && len(items) <= MaxUint32
 //@   modifies $usercalls, $alloc, $wgdone[0], $lenOf(q.internalQueue), $enq(q.internalQueue), $lastEnq(q.internalQueue), $submitted, $signals(q.externalBaseQueue.w), $acks, $lastAck
@@ -163,7 +163,7 @@ package varmq
 //@   ensures [wired] $fresh(result) && result.internalQueue == pq && result.externalBaseQueue != nil && result.externalBaseQueue.q == pq && result.externalBaseQueue.w == $mk(w)
 
 //@ func priorityQueue.Add
-//@   props C01 C03 C10 C17
+//@   props C01 C03 C10 C17 C16
 //@   assert [signal-after-bookkeeping] before call invoke.notifyToPullNextJobs: j.status == queued
 //@   requires q.externalBaseQueue != nil && q.externalBaseQueue.w != nil && q.internalQueue != nil
 //@   requires forall k int :: 0 <= k && k < len(configs) ==> configs[k] != nil
@@ -177,7 +177,7 @@ package varmq
 //@   ensures [fresh]    $fresh(j)
 
 //@ func priorityQueue.AddAll
-//@   props C01 C05 C08 C17
+//@   props C01 C05 C08 C17 C16
 //@   assert [signal-after-bookkeeping] before call invoke.notifyToPullNextJobs: j.job.status == queued
 //@   requires q.externalBaseQueue != nil && q.externalBaseQueue.w != nil && q.internalQueue != nil && len(items) <= MaxUint32
 //@   modifies $usercalls, $alloc, $wgdone[0], $lenOf(q.internalQueue), $enq(q.internalQueue), $lastEnq(q.internalQueue), $lastEnqPrio(q.internalQueue), $submitted, $signals(q.externalBaseQueue.w), $acks, $lastAck
@@ -200,7 +200,7 @@ package varmq
 //@   ensures [wired] $fresh(result) && result.internalQueue == pq && result.externalBaseQueue != nil && result.externalBaseQueue.q == pq && result.externalBaseQueue.w == $mk(w)
 
 //@ func errorPriorityQueue.Add
-//@   props C01 C03 C10 C17
+//@   props C01 C03 C10 C17 C16
 //@   assert [signal-after-bookkeeping] before call invoke.notifyToPullNextJobs: j.job.status == queued
 //@   requires q.externalBaseQueue != nil && q.externalBaseQueue.w != nil && q.internalQueue != nil
 //@   requires forall k int :: 0 <= k && k < len(configs) ==> configs[k] != nil
@@ -214,7 +214,7 @@ package varmq
 //@   ensures [fresh]    $fresh(j)
 
 //@ func errorPriorityQueue.AddAll
-//@   props C01 C05 C08 C17
+//@   props C01 C05 C08 C17 C16
 //@   assert [signal-after-bookkeeping] before call invoke.notifyToPullNextJobs: j.errorJob.job.status == queued
 //@   requires q.externalBaseQueue != nil && q.externalBaseQueue.w != nil && q.internalQueue != nil && len(items) <= MaxUint32
 //@   modifies $usercalls, $alloc, $wgdone[0], $lenOf(q.internalQueue), $enq(q.internalQueue), $lastEnq(q.internalQueue), $lastEnqPrio(q.internalQueue), $submitted, $signals(q.externalBaseQueue.w), $acks, $lastAck
@@ -239,7 +239,7 @@ package varmq
 //@   ensures [wired] $fresh(result) && result.internalQueue == pq && result.externalBaseQueue != nil && result.externalBaseQueue.q == pq && result.externalBaseQueue.w == $mk(w)
 
 //@ func resultPriorityQueue.Add
-//@   props C01 C03 C10 C17
+//@   props C01 C03 C10 C17 C16
 //@   assert [signal-after-bookkeeping] before call invoke.notifyToPullNextJobs: j.job.status == queued
 //@   requires q.externalBaseQueue != nil && q.externalBaseQueue.w != nil && q.internalQueue != nil
 //@   requires forall k int :: 0 <= k && k < len(configs) ==> configs[k] != nil
@@ -253,7 +253,7 @@ package varmq
 //@   ensures [fresh]    $fresh(j)
 
 //@ func resultPriorityQueue.AddAll
-//@   props C01 C05 C08 C17
+//@   props C01 C05 C08 C17 C16
 //@   assert [signal-after-bookkeeping] before call invoke.notifyToPullNextJobs: j.resultJob.job.status == queued
 //@   requires q.externalBaseQueue != nil && q.externalBaseQueue.w != nil && q.internalQueue != nil && len(items) <= MaxUint32
 //@   modifies $usercalls, $alloc, $wgdone[0], $lenOf(q.internalQueue), $enq(q.internalQueue), $lastEnq(q.internalQueue), $lastEnqPrio(q.internalQueue), $submitted, $signals(q.externalBaseQueue.w), $acks, $lastAck
@@ -335,7 +335,7 @@ package varmq
 
 // persistentQueue.Add: an unencodable payload or a refusing adapter rejects the submission with no effect on queue, counters or signal.
 //@ func persistentQueue.Add
-//@   props C12 C11 C01 C17
+//@   props C12 C11 C01 C17 C16
 //@   requires q.queue != nil && q.queue.externalBaseQueue != nil && q.queue.externalBaseQueue.w != nil && q.queue.internalQueue != nil
 //@   requires forall k int :: 0 <= k && k < len(configs) ==> configs[k] != nil
 //@   modifies $usercalls, $alloc, $wgdone[0], $lenOf(q.queue.internalQueue), $enq(q.queue.internalQueue), $lastEnq(q.queue.internalQueue), $submitted, $signals(q.queue.externalBaseQueue.w), $acks, $lastAck
@@ -346,7 +346,7 @@ package varmq
 //@   ensures [counted]  forall m ref {$submitted(m)} :: $submitted(m) == old($submitted(m)) || (result && $submitted(m) == old($submitted(m)) + 1)
 
 //@ func persistentPriorityQueue.Add
-//@   props C12 C11 C01 C17
+//@   props C12 C11 C01 C17 C16
 //@   requires q.priorityQueue != nil && q.priorityQueue.externalBaseQueue != nil && q.priorityQueue.externalBaseQueue.w != nil && q.priorityQueue.internalQueue != nil
 //@   requires forall k int :: 0 <= k && k < len(configs) ==> configs[k] != nil
 //@   modifies $usercalls, $alloc, $lenOf(q.priorityQueue.internalQueue), $enq(q.priorityQueue.internalQueue), $lastEnq(q.priorityQueue.internalQueue), $lastEnqPrio(q.priorityQueue.internalQueue), $submitted, $signals(q.priorityQueue.externalBaseQueue.w)
